@@ -146,7 +146,16 @@ XercesDocumentWrapper::create(
 
 XercesDocumentWrapper::~XercesDocumentWrapper()
 {
-    destroyWrapper();
+    // Don't call destroyWrapper() here.  It leaves the wrapper ready
+    // to be rebuilt, which allocates memory, and that must not fail in
+    // a destructor.  Just delete the nodes; the data members clean up
+    // everything else.
+    using std::for_each;
+
+    for_each(
+            m_nodes.begin(),
+            m_nodes.end(),
+            DeleteFunctor<XalanNode>(m_nodes.getMemoryManager()));
 }
 
 
